@@ -1,7 +1,7 @@
 (* Entry point of the executable model: one case (a [val]) in, one
    observation (a [val]) out.  The same function is extracted to OCaml
    (vv_eval) and re-evaluated on samples inside Coq by vm_compute. *)
-From VV Require Import Base.Bits Base.Rt Base.Val Gen.GenConsts Gen.GenLayout Gen.GenFns Spec.ValidityDec Spec.BeSpec Spec.FeSpec Model.Transport Model.BeServer Model.Frontend.
+From VV Require Import Base.Bits Base.Rt Base.Val Gen.GenConsts Gen.GenLayout Gen.GenFns Spec.ValidityDec Spec.BeSpec Spec.FeSpec Spec.SessSpec Model.Transport Model.BeServer Model.Frontend.
 Open Scope string_scope.
 Open Scope list_scope.
 Open Scope N_scope.
@@ -213,6 +213,53 @@ Definition run_fe (args : list val) : val :=
   | _ => verror "args"
   end.
 
+(* ---- family "sess": real frontend talking to the real backend server ----
+   args: [VN maxq; VL [VN feat; VN pfeat]; VL steps]; step = VL [VS op; nums; VH bytes; fds; regions; VN outcome]
+   obs : VL [ VL [result; VL calls] ... ]
+   Model: the frontend model writes its request (which does not depend on the answer), the backend
+   model serves it, and the frontend model then reads the backend's reply. *)
+Definition parse_sstep (v : val) : option (string * list N * list N * list N * list (list N) * N) :=
+  match v with
+  | VL [VS name; nums; VH bytes; fds; VL regions; VN o] =>
+      match val_NL nums, val_NL fds, all_some (map val_NL regions) with
+      | Some a, Some f, Some r => Some (name, a, hex_bytes bytes, f, r, o)
+      | _, _, _ => None
+      end
+  | _ => None
+  end.
+Definition seg_of_tx (t : Frontend.tx) : seg := {| seg_bytes := fst t; seg_fds := snd t |}.
+Fixpoint sess_steps (cfg : be_cfg) (fs : fe_state) (bs : be_state) (steps : list val) : list val :=
+  match steps with
+  | [] => []
+  | st :: rest =>
+      match parse_sstep st with
+      | Some (name, a, bytes, fds, regions, o) =>
+          let probe := fe_op fs name a bytes fds regions [] in
+          match f_sent probe with
+          | [] => VL [f_result probe; VL []] :: sess_steps cfg (f_state probe) bs rest
+          | m :: _ =>
+              let '(bs', out, _) := handle_request cfg bs o [seg_of_tx m] in
+              let replies := map (fun t => {| seg_bytes := fst t; seg_fds := snd t |}) (o_sent out) in
+              let fin := fe_op fs name a bytes fds regions replies in
+              let served := match o_result out with ROk _ => true | RErr _ => false end in
+              let avail := stream_len replies in
+              (* a backend that answered short and keeps serving leaves the caller waiting *)
+              let res := if served && (avail <? fe_demand fs name a bytes)%nat then VS "blocked" else f_result fin in
+              let this := VL [res; VL (o_calls out)] in
+              (* like the daemon loop, the server stops and closes the connection at the first error *)
+              if served && negb (val_eqb res (VS "blocked")) then this :: sess_steps cfg (f_state fin) bs' rest
+              else [this]
+          end
+      | None => [verror "step"]
+      end
+  end.
+Definition run_sess (args : list val) : val :=
+  match args with
+  | [VN maxq; VL [VN f; VN pf]; VL steps] =>
+      VL (sess_steps {| cfg_features := f; cfg_pfeatures := pf |} (fe_init maxq) be_init steps)
+  | _ => verror "args"
+  end.
+
 Definition run (c : val) : val :=
   match c with
   | VL (VS fam :: args) =>
@@ -222,6 +269,8 @@ Definition run (c : val) : val :=
       else if String.eqb fam "be-spec" then be_spec args
       else if String.eqb fam "seg" then run_seg args
       else if String.eqb fam "fe" then run_fe args
+      else if String.eqb fam "sess" then run_sess args
+      else if String.eqb fam "sess-spec" then sess_spec args
       else if String.eqb fam "fe-spec" then fe_spec args
       else if String.eqb fam "iovs" then run_iovs args
       else if String.eqb fam "iovs-spec" then run_iovs_spec args
